@@ -54,6 +54,12 @@ type FileSpec struct {
 	// sample buffer into per-message pieces. BuildFile ignores it; the checks
 	// that encode apply it.
 	Aliased bool `json:"aliased_arrays,omitempty"`
+	// SubSecond: the File's times carry a fractional part (cut off on the
+	// wire); ZonedUTC: its date_time fields are shown in zones other than UTC
+	// (same instants). prof.TweakTimes; BuildFile ignores both, the checks
+	// that encode apply them (sub-second values are outside C06's domain).
+	SubSecond bool `json:"times_with_fraction,omitempty"`
+	ZonedUTC  bool `json:"utc_fields_in_zones,omitempty"`
 }
 
 // FileOpts steers GenFile.
@@ -305,6 +311,8 @@ func GenFile(d D, o FileOpts) *FileSpec {
 		fs.Proto = 0x10
 	}
 	fs.Aliased = d.Int(0, 3, "aliased") == 0
+	fs.SubSecond = d.Int(0, 3, "subsecond") == 0
+	fs.ZonedUTC = d.Int(0, 3, "zonedutc") == 0
 	fs.FileId = DrawMsg(d, 0, &o)
 	for _, s := range prof.FileSlots() {
 		if s.Name == "FileId" {
